@@ -71,9 +71,17 @@ func randomWorkload(en *Env, cfg h.Cfg, nkeys int, o genOpts, reopenCfg func() h
 		case c < 80 && o.batches:
 			e.NewBatch(r.Intn(4) == 0)
 			nb := r.Intn(6)
+			// every third batch is larger than the file-size limit (flushed in pieces over several files)
+			big := r.Intn(3) == 0 && e.Cfg.Limit <= 40000
+			if big {
+				nb = 4 + r.Intn(5)
+			}
 			for j := 0; j < nb && !e.Dead; j++ {
 				bk := 1 + r.Intn(nkeys)
 				switch b := r.Intn(10); {
+				case b < 5 && big:
+					id, _ := vs.New(int(e.Cfg.Limit)/3 + r.Intn(int(e.Cfg.Limit)/3+1))
+					e.BPut(bk, id)
 				case b < 5:
 					e.BPut(bk, newVal())
 				case b < 8:
@@ -84,6 +92,17 @@ func randomWorkload(en *Env, cfg h.Cfg, nkeys int, o genOpts, reopenCfg func() h
 			}
 			if !e.Dead {
 				e.Commit()
+			}
+			// a committed batch stays applied across a restart
+			if !e.Dead && o.restarts && r.Intn(3) == 0 {
+				e.Dump()
+				if e.Close() != "ok" {
+					return
+				}
+				if e.Open(reopenCfg()) != "ok" {
+					return
+				}
+				e.Dump()
 			}
 			// an ordinary caller writes an earlier value again, from the slice it used before
 			if !e.Dead && len(recent) > 0 && r.Intn(2) == 0 {
